@@ -1,4 +1,4 @@
-SPECIFICATION Spec
+SPECIFICATION SpecNoStuckCall
 CONSTANTS
  Confs <- AllConfs
  P = {1, 2}
@@ -8,4 +8,4 @@ CONSTANTS
  Aware = {TRUE}
 VIEW View
 INVARIANTS OneLive NonNegative Grammar Released
-CHECK_DEADLOCK FALSE
+CHECK_DEADLOCK TRUE
